@@ -80,6 +80,11 @@ def math_ceil(x):
     return V(ceil_t(x.t))
 
 
+OPAQUE_ROUND = [False]  # set per unit: rounding as an uninterpreted function (congruence only) -- sound, and it
+# keeps obligations that only need "same argument => same rounded value" inside linear arithmetic
+RND = z3.Function("round_to", z3.RealSort(), z3.IntSort(), z3.RealSort())
+
+
 def np_round(x, decimals=0):
     _use("numpy.round / Series.round / builtins.round = round-half-to-even at the given decimals (exact, A-REAL)")
     if not isinstance(x, V):
@@ -88,6 +93,8 @@ def np_round(x, decimals=0):
         raise Undecided("round with symbolic decimals")
     if z3.is_int(x.t) and decimals >= 0:
         return x  # whole numbers are fixed points of rounding
+    if OPAQUE_ROUND[0] and x.axes:
+        return x.like(RND(real(x.t), z3.IntVal(decimals)), nan=x.nan, inf=x.inf)
     scale = 10 ** decimals
     r = z3.ToReal(round_half_even_t(real(x.t) * scale)) / scale
     return x.like(r, nan=x.nan, inf=x.inf)
@@ -547,6 +554,10 @@ def v_getattr(interp, v, name):
         from . import sums as _s
 
         return lambda axis=None, **k: _s.reduce_opaque(interp, v, axis, "std", nonneg=True)
+    if name == "cumsum":
+        from . import sums as _s
+
+        return lambda **k: _s.cumsum_sorted(interp, v)
     if name == "between":
 
         def between(left, right, inclusive="both"):
